@@ -44,6 +44,9 @@ var vC07LibDecls = []string{
 	"Die öffentliche Zahl wert ist 1.\n\n",
 	"Die Zahl privat ist 2.\n\n",
 	"Die öffentliche Funktion lib_g mit dem Parameter a vom Typ Text, gibt eine Zahl zurück, macht:\n\tGib 2 zurück.\nUnd kann so benutzt werden:\n\t\"die Stufe von <a>\"\n\n",
+	// a generic function that can only be instantiated for numbers, and a Text function whose alias is a prefix of its alias
+	"Die öffentliche generische Funktion lib_summe mit den Parametern a und b vom Typ T und Zahl, gibt eine Zahl zurück, macht:\n\tGib a plus b zurück.\nUnd kann so benutzt werden:\n\t\"foo <a> plus <b>\"\n\n",
+	"Die öffentliche Funktion lib_zeichen mit dem Parameter a vom Typ Text, gibt eine Zahl zurück, macht:\n\tGib 3 zurück.\nUnd kann so benutzt werden:\n\t\"foo <a>\"\n\n",
 }
 
 var vC07MainDecls = []string{
@@ -89,6 +92,10 @@ func VerifC07ImportDiagnostics() {
 	} else {
 		main = imp + local
 	}
+	if rt.Bool("use") {
+		// with lib_summe and lib_zeichen imported: the generic candidate is tried first and passed over
+		main += "Die Zahl summe ist foo \"abc\" plus 1.\n"
+	}
 	main += "Die Zahl ende ist 0.\n"
 	libErrors := 0
 	libMod, err := Parse(Options{FileName: "/m/lib.ddp", Source: []byte(lib), ErrorHandler: func(e ddperror.Error) {
@@ -113,12 +120,22 @@ func VerifC07ImportDiagnostics() {
 	}
 	lineLen = append(lineLen, n)
 	var diags []ddperror.Error
-	_, err = Parse(Options{FileName: "/m/main.ddp", Source: []byte(main), Modules: map[string]*ast.Module{"/m/lib.ddp": libMod},
+	mainMod, err := Parse(Options{FileName: "/m/main.ddp", Source: []byte(main), Modules: map[string]*ast.Module{"/m/lib.ddp": libMod},
 		ErrorHandler: func(e ddperror.Error) { diags = append(diags, e) }})
 	if err != nil {
 		_, crashed := err.(*ParserError)
 		rt.Assert(!crashed, "the frontend does not crash internally (ParserError)")
 		return
+	}
+	errorsDelivered := 0
+	for _, e := range diags {
+		if e.Level == ddperror.LEVEL_ERROR {
+			errorsDelivered++
+		}
+	}
+	rt.Assert(!libMod.Ast.Faulty, "parsing an importing module leaves the (well-formed) imported module unmarked")
+	if mainMod != nil && mainMod.Ast != nil {
+		rt.Assert(mainMod.Ast.Faulty == (errorsDelivered > 0), "the importing module is faulty exactly when an error diagnostic was delivered")
 	}
 	for _, e := range diags {
 		rt.Assert(e.File == "/m/main.ddp", "a diagnostic of the main module names the main module's file")
